@@ -70,9 +70,14 @@ fn ref_rewrite(lit: &[u8], nl: &[u8], indent: &[u8]) -> Option<Buf> {
         i += 1;
     }
     let last = &lit[starts[nlines - 1]..ends[nlines - 1]];
+    // leading blanks of the last line: code points <= U+0020 and U+3000
     let mut bl = 0;
-    while bl < last.len() && is_blank_byte(last[bl]) {
-        bl += 1;
+    while bl < last.len() {
+        let l = blank_len_at(last, bl);
+        if l == 0 {
+            break;
+        }
+        bl += l;
     }
     let mut k = bl;
     while k < last.len() {
@@ -365,5 +370,6 @@ m1c! {
     c12_m1c_nonconforming => (24; "\'\'\'\n a\nb\n \'\'\'", false, 2, 2, false),
     c12_m1c_text_before_closing_quotes => (24; "\'\'\'\n a\n b\'\'\'", false, 2, 2, false),
     c12_m1c_ignored_untouched => (24; "\'\'\'\n  ab\n  \'\'\'", false, 2, 4, false),
+    c12_m1c_ideographic_space_base => (30; "\'\'\'\n\u{3000}a\r\u{3000} b\n\u{3000}\'\'\'", false, 2, 2, false),
     c12_m1c_five_quotes => (30; "\'\'\'\'\'\n a\'\'\'\n \'\'\'\'\'", false, 2, 2, false),
 }
